@@ -5,6 +5,8 @@ import Log4rsModel.Routing.Filters
 import Log4rsModel.Pattern.Encode
 import Log4rsModel.Rolling.File
 import Log4rsModel.Json.Model
+import Log4rsModel.Rolling.Ext06Spec
+import Log4rsModel.Roller.Name
 /-
 The whole logging pipeline, composed from the per-area executable models (nothing is re-implemented
 here; every step is a call into the model file of its own area):
@@ -35,6 +37,28 @@ inductive EncKind where
   | pattern | json
   deriving Repr, DecidableEq
 
+/-- the roller of a `CompoundPolicy` (stage 2 (C)) -/
+inductive RollerKind where
+  | delete
+  /-- `FixedWindowRoller::builder().base(base).build(pattern, count)`, plain (uncompressed) pattern -/
+  | fixedWindow (pattern : List Char) (base count : Nat)
+
+/-- a `RollingFileAppender` with `CompoundPolicy(SizeTrigger(limit), roller)` in a directory of its
+own: `active` is the log file's name inside it, `dir` the directory before the appender is built -/
+structure RollSpec where
+  limit : Nat
+  roller : RollerKind
+  active : List Char
+  dir : Roller.Disk
+
+def RollerKind.fn : RollerKind → Rolling.RollFn
+  | .delete => fun p f d => Roller.deleteRoll p f d
+  | .fixedWindow pattern base count => Roller.fixedWindowRoll (Roller.mkRoller id id pattern base count)
+
+/-- the appender model of Rolling/Model.lean instantiated with the size trigger (Rolling/Ext06Spec.lean) -/
+def RollSpec.cfg (rs : RollSpec) (appendMode : Bool) : Rolling.Cfg Unit :=
+  Rolling.sizeCfg rs.active appendMode rs.limit rs.roller.fn
+
 /-- one file appender as the application declares it -/
 structure SysAppender where
   /-- levels of the `ThresholdFilter`s attached to the appender, in declaration order -/
@@ -46,6 +70,8 @@ structure SysAppender where
   /-- content of the file before the appender is built (`none`: the file does not exist) -/
   pre : Option Bytes
   kind : EncKind := .pattern
+  /-- `some`: the appender is a `RollingFileAppender` (then `pre` is not read: the directory is `dir`) -/
+  rolling : Option RollSpec := none
 
 /-- the routing configuration plus, per appender name, the appender behind the name; and the facts
 of the platform the pattern area's model is parametric in (character classes, build profile, what
@@ -100,10 +126,12 @@ def encodeWith (e : Encoder) (r : SysRecord) : Outcome Unit Bytes :=
     | .panic w => .panic w
   | .json => .ok (utf8 (jsonOf r))
 
-/-- a built appender: its encoder and the open `BufWriter<File>` -/
+/-- a built appender: its encoder and the open `BufWriter<File>`; for a rolling appender (`roll`)
+its configuration and state in the model of Rolling/Model.lean instead (`file` is then not used) -/
 structure AppState where
   enc : Encoder
   file : Rolling.BufFile
+  roll : Option (Rolling.Cfg Unit × Rolling.St Unit) := none
 
 /-- the runtime appender table (in the order of `cfg.routing.appenders`) and the errors handed to
 the error handler so far (names of the appenders whose `append` returned `Err`, in order) -/
@@ -128,16 +156,28 @@ def FilesState.contents (st : FilesState) : List (Name × Bytes) :=
 def FilesState.disk (st : FilesState) (a : Name) : Option Bytes :=
   (getApp st.apps a).map (·.file.disk)
 
+/-- the directory of a rolling appender (`none`: not a rolling appender) -/
+def FilesState.dir (st : FilesState) (a : Name) : Option Roller.Disk :=
+  (getApp st.apps a).bind fun s => s.roll.map (·.2.disk)
+
 /-- the filter vector of an appender: one real `ThresholdFilter` per declared level -/
 def filtersOf (sa : SysAppender) : List Filter := sa.thresholds.map Filter.threshold
 
 /-- `PatternEncoder::new(pattern)` + `FileAppender::builder().append(mode).encoder(..).build(path)` -/
+def openSink (sa : SysAppender) (e : Encoder) : AppState :=
+  match sa.rolling with
+  | none => { enc := e, file := Rolling.FileAppender.build sa.mode sa.pre }
+  | some rs =>
+    -- `RollingFileAppender::builder().append(mode).build(path, policy)`: the file is opened at once
+    { enc := e, file := { disk := [], buf := [] },
+      roll := some (rs.cfg (sa.mode == .append), Rolling.init (rs.cfg (sa.mode == .append)) rs.dir () 0) }
+
 def openApp (cfg : SysConfig) (a : Name) : Outcome Unit AppState :=
   match (cfg.app a).kind with
-  | .json => .ok { enc := .json, file := Rolling.FileAppender.build (cfg.app a).mode (cfg.app a).pre }
+  | .json => .ok (openSink (cfg.app a) .json)
   | .pattern =>
     match newEncoder cfg.cc cfg.P cfg.B (cfg.app a).pattern with
-    | .ok cs => .ok { enc := .pattern cs, file := Rolling.FileAppender.build (cfg.app a).mode (cfg.app a).pre }
+    | .ok cs => .ok (openSink (cfg.app a) (.pattern cs))
     | .err e => .err e
     | .panic w => .panic w
 
@@ -163,9 +203,22 @@ def sysOpen (cfg : SysConfig) : Outcome Unit FilesState :=
   | .err e => .err e
   | .panic w => .panic w
 
-/-- `FileAppender::append` after the encode into memory: one `write_all`, `flush` -/
+/-- `FileAppender::append` after the encode into memory: one `write_all`, `flush`; for a rolling
+appender `RollingFileAppender::append` (Rolling/Model.lean `append`, no injected fault) on the
+encoded record as one slice -/
 def fileAppend (s : AppState) (bytes : Bytes) : AppState :=
-  { s with file := Rolling.FileAppender.append s.file [bytes] }
+  match s.roll with
+  | none => { s with file := Rolling.FileAppender.append s.file [bytes] }
+  | some (c, st) => { s with roll := some (c, (Rolling.applyX c st (.op (.append [bytes] none))).2) }
+
+/-- does the append return `Err` (only a rolling appender whose roller fails does) -/
+def appendFails (s : AppState) (bytes : Bytes) : Bool :=
+  match s.roll with
+  | none => false
+  | some (c, st) =>
+    match (Rolling.applyX c st (.op (.append [bytes] none))).1 with
+    | some out => out.res != .ok
+    | none => false
 
 /-- one attachment: `appenders[idx].append(record)` = the filter chain, then the file appender -/
 def appendOne (cfg : SysConfig) (r : SysRecord) (st : FilesState) (a : Name) : Outcome Unit FilesState :=
@@ -174,7 +227,9 @@ def appendOne (cfg : SysConfig) (r : SysRecord) (st : FilesState) (a : Name) : O
   | some s =>
     if (runChain r.level (filtersOf (cfg.app a))).2 then
       match encodeWith s.enc r with
-      | .ok o => .ok { st with apps := updApp a (fun s => fileAppend s o) st.apps }
+      | .ok o =>
+        let errs := if appendFails s o then st.errors ++ [a] else st.errors
+        .ok { apps := updApp a (fun s => fileAppend s o) st.apps, errors := errs }
       | .err _ => .ok { st with errors := st.errors ++ [a] }
       | .panic w => .panic w
     else .ok st
